@@ -15,10 +15,11 @@ AUDIT_IMPORTS = ['Flowdyn.Props.C05', 'Flowdyn.Props.C12', 'Flowdyn.Props.C09b',
 THEOREMS = THEOREMS + ['Flowdyn.C07.loop_preserves', 'Flowdyn.C07.run_preserves', 'Flowdyn.C07.run_preserves_data']
 AUDIT_IMPORTS = AUDIT_IMPORTS + ['Flowdyn.Props.C09c']
 THEOREMS = THEOREMS + core.theorems_in(['C09c.lean'], 'Flowdyn.C09')
-PARTIAL = {"MUSCL Burgers": "MUSCL reconstruction with the Burgers flux (second order, sign-changing data) is explored by the sweep only; first-order Burgers (any periodic mesh, CFL<=1, sonic points and the tie uL+uR=0 included) is proved (C09c.burgers_step_tvd, burgers_ssp_tvd, burgers_run_tvd)",
-           "non-uniform MUSCL": "MUSCL theorems are for uniform periodic meshes (the property's clause); first-order upwind and first-order Burgers are proved on any periodic mesh",
+AUDIT_IMPORTS = AUDIT_IMPORTS + ['Flowdyn.Props.C09d']
+THEOREMS = THEOREMS + core.theorems_in(['C09d.lean'], 'Flowdyn.C09d')
+PARTIAL = {"non-uniform MUSCL": "MUSCL theorems are for uniform periodic meshes (the property's clause); first-order upwind and first-order Burgers are proved on any periodic mesh",
            "local time step": "SSP/TVD theory is for one global time step: whole-solve theorems assume dtlocal = false"}
-LEVEL_NOTE = "Harten's lemma on the cyclic index set; upwind (any speed sign, any periodic mesh, CFL<=1), MUSCL with every limiter of the code (Sweby region, any speed sign, uniform mesh, CFL<=1/2) and first-order Burgers: one Euler step, then explicit/rk2_heun/rk3ssp steps through the Shu-Osher forms of the regenerated tables (C09c.ssp_preserves), then whole solves with any save times/stop criteria/monitors including every returned snapshot (C09c.run_allQ, *_run_tvd)"
+LEVEL_NOTE = "Harten's lemma on the cyclic index set; upwind (any speed sign, any periodic mesh, CFL<=1), MUSCL with every limiter of the code (Sweby region, any speed sign, uniform mesh, CFL<=1/2) first-order Burgers and MUSCL Burgers for data of any sign (C09d, max|u| dt/h <= 1/2): one Euler step, then explicit/rk2_heun/rk3ssp steps through the Shu-Osher forms of the regenerated tables (C09c.ssp_preserves), then whole solves with any save times/stop criteria/monitors including every returned snapshot (C09c.run_allQ, *_run_tvd)"
 LIMS = ['minmod', 'vanalbada', 'vanleer', 'superbee']
 SSP = ['explicit', 'rk2_heun', 'rk3ssp']
 
